@@ -49,6 +49,7 @@ import (
 	"github.com/cosmos/cosmos-sdk/store/prefix"
 	"github.com/cosmos/cosmos-sdk/codec"
 	sdk "github.com/cosmos/cosmos-sdk/types"
+	authtypes "github.com/cosmos/cosmos-sdk/x/auth/types"
 	paramstypes "github.com/cosmos/cosmos-sdk/x/params/types"
 	"github.com/ethereum/go-ethereum/common"
 	"github.com/ethereum/go-ethereum/crypto"
@@ -85,6 +86,7 @@ type c13World struct {
 	ctx2      sdk.Context
 	hist      []string
 	reachable bool
+	lastOut   string
 	// export → validate → init → export2 pipeline state
 	gen      *c13Gen
 	list1    string
@@ -349,6 +351,12 @@ func (w *c13World) unCons(bz []byte) exported.ConsensusState {
 	}
 	return cs
 }
+func b01i(b bool) int {
+	if b {
+		return 1
+	}
+	return 0
+}
 func b01(b bool) string {
 	if b {
 		return "1"
@@ -370,6 +378,7 @@ func (w *c13World) apply(r *Rec, op string) (out string) {
 	w.hist = append(w.hist, op)
 	ck := w.app.XIBCKeeper.ClientKeeper
 	pk := w.app.XIBCKeeper.PacketKeeper
+	defer func() { w.lastOut = out }()
 	defer func() {
 		if rec := recover(); rec != nil {
 			out = "harness-panic " + strings.ReplaceAll(fmt.Sprint(rec), "\n", " ")
@@ -391,18 +400,84 @@ func (w *c13World) apply(r *Rec, op string) (out string) {
 		w.app.AppCodec().MustUnmarshal(unhx(f[1]), &ir)
 		ck.RegisterRelayers(w.ctx, ir.Address, ir.Chains, ir.Addresses)
 		return "ok"
-	case "create":
+	case "create", "toggle":
+		// proposal level: Create/ToggleClientProposal.ValidateBasic runs ClientState.Validate() before the keeper is reached;
+		// a failing keeper call is reverted with its transaction
 		chain := string(unhx(f[2]))
 		cs := w.unCS(unhx(f[3]))
 		cons := w.unCons(unhx(f[5]))
-		ctx := w.ctx
+		if cs.Validate() != nil {
+			r.Count(f[0] + ".rejected-by-validate")
+			return "err"
+		}
+		ctx, write := w.ctx.CacheContext()
 		if f[1] == "tm" {
 			ctx = ctx.WithBlockTime(time.Unix(0, int64(pu(f[9]))))
 		}
-		if err := ck.CreateClient(ctx, chain, cs, cons); err != nil {
-			panic("CreateClient: " + err.Error())
+		var err error
+		if f[0] == "create" {
+			err = ck.CreateClient(ctx, chain, cs, cons)
+		} else {
+			err = ck.ToggleClient(ctx, chain, cs, cons)
 		}
+		if err != nil {
+			r.Count(f[0] + ".rejected-by-keeper")
+			return "err"
+		}
+		write()
 		return "ok"
+	case "rvinit":
+		// rvesting InitGenesis with `From` funding, on a scratch branch: rvinit FROMVALID NB (DENOM BAL)*NB NR (DENOM AMT)*NR
+		cctx, _ := w.ctx.CacheContext()
+		from := sdk.AccAddress(bytes.Repeat([]byte{0xf7}, 20))
+		pool := authtypes.NewModuleAddress(rvestingtypes.ModuleName)
+		nb := int(pu(f[2]))
+		var denoms []string
+		for i := 0; i < nb; i++ {
+			d := string(unhx(f[3+2*i]))
+			denoms = append(denoms, d)
+			amt, _ := sdk.NewIntFromString(f[4+2*i])
+			if amt.IsPositive() {
+				c := sdk.NewCoins(sdk.NewCoin(d, amt))
+				if err := w.app.BankKeeper.MintCoins(cctx, "aggregate", c); err != nil {
+					panic(err)
+				}
+				if err := w.app.BankKeeper.SendCoinsFromModuleToAccount(cctx, "aggregate", from, c); err != nil {
+					panic(err)
+				}
+			}
+		}
+		nr := int(pu(f[3+2*nb]))
+		var reward sdk.Coins
+		for i := 0; i < nr; i++ {
+			amt, _ := sdk.NewIntFromString(f[5+2*nb+2*i])
+			reward = append(reward, sdk.NewCoin(string(unhx(f[4+2*nb+2*i])), amt))
+		}
+		before := map[string]sdk.Int{}
+		for _, d := range denoms {
+			before[d] = w.app.BankKeeper.GetBalance(cctx, pool, d).Amount
+		}
+		gs := rvestingtypes.GenesisState{Params: w.app.RVestingKeeper.GetParams(cctx), From: from.String(), InitReward: reward}
+		if f[1] == "0" {
+			gs.From = "not-a-bech32-address"
+		}
+		if pan, _ := safely(func() { w.app.RVestingKeeper.InitGenesis(cctx, &gs) }); pan {
+			r.Count("rvinit.panic")
+			return "panic"
+		}
+		r.Count("rvinit.ok")
+		var ps, fs []string
+		for _, d := range denoms {
+			ps = append(ps, hxs(d)+"="+w.app.BankKeeper.GetBalance(cctx, pool, d).Amount.Sub(before[d]).String())
+			fs = append(fs, hxs(d)+"="+w.app.BankKeeper.GetBalance(cctx, from, d).Amount.String())
+		}
+		// oracle (statement of initRvesting_funded on the implementation): pool gained exactly InitReward
+		for _, d := range denoms {
+			if got := w.app.BankKeeper.GetBalance(cctx, pool, d).Amount.Sub(before[d]); !got.Equal(reward.AmountOf(d)) {
+				r.Find(Finding{Sig: "C13:rvesting-init-funding", What: "InitGenesis with From did not move exactly InitReward into the pool", Ops: append([]string{}, w.hist...), Obs: got.String(), Req: reward.AmountOf(d).String()})
+			}
+		}
+		return "ok P[" + strings.Join(ps, ",") + "] F[" + strings.Join(fs, ",") + "]"
 	case "client":
 		ck.SetClientState(w.ctx, string(unhx(f[1])), w.unCS(unhx(f[2])))
 		return "ok"
@@ -918,6 +993,9 @@ func (w *c13World) genPrefixRelated(r *Rec, emit func(string), used map[string]b
 			}
 			used[m] = true
 			cl := w.genCreate(r, ntypes[r.Rng.Intn(4)], m, emit)
+			if cl.failed {
+				continue
+			}
 			if cl.ty != "tss" {
 				h := clienttypes.NewHeight(c13Rev(r), 1+c13U64(r)%1000000)
 				cons := w.genConsFor(r, cl, h)
@@ -994,15 +1072,22 @@ func c13BscSealHash(h bsctypes.Header, chainID *big.Int) common.Hash {
 }
 
 type c13Client struct {
+	failed  bool
 	ty      string
 	chain   string
 	heights []clienttypes.Height
+}
+
+// create / toggle are proposal-level operations: they may be rejected (ClientState.Validate, Initialize)
+func c13MayFail(op, out string) bool {
+	return out == "err" && (strings.HasPrefix(op, "create ") || strings.HasPrefix(op, "toggle "))
 }
 
 type c13Fix struct {
 	set    bool
 	rev, h uint64
 	nval   int // bsc: number of validators in the epoch header (-1 = random)
+	verb   string // "create" (default) or "toggle"
 }
 
 func (w *c13World) genCreate(r *Rec, ty, chain string, emit func(string)) *c13Client {
@@ -1090,9 +1175,19 @@ func (w *c13World) genCreateAt(r *Rec, ty, chain string, emit func(string), fx c
 	if ty != "tss" {
 		cl.heights = append(cl.heights, clienttypes.NewHeight(rev, h))
 	}
-	emit(fmt.Sprintf("create %s %s %s %s %s %s %d %d %s", ty, hxs(chain), hx(w.csBlob(cs)), b01(cs.Validate() == nil),
+	verb := "create"
+	if fx.verb != "" {
+		verb = fx.verb
+	}
+	emit(fmt.Sprintf(verb+" %s %s %s %s %s %s %d %d %s", ty, hxs(chain), hx(w.csBlob(cs)), b01(cs.Validate() == nil),
 		hx(w.consBlob(cons)), b01(cons.ValidateBasic() == nil), rev, h, extra))
-	r.Count("create." + ty)
+	cl.failed = w.lastOut == "err"
+	if cl.failed {
+		r.Count(verb + ".rejected")
+		cl.heights = nil
+		return cl
+	}
+	r.Count(verb + "." + ty)
 	if rev == 0 && h == 0 && ty != "tss" {
 		r.Count("height.zero")
 	}
@@ -1132,7 +1227,9 @@ func (w *c13World) genHistory(r *Rec, emit func(string), size int) {
 	var clients []*c13Client
 	ncl := r.Rng.Intn(size + 1)
 	for i := 0; i < ncl; i++ {
-		clients = append(clients, w.genCreate(r, ntypes[r.Rng.Intn(4)], c13Name(r, used), emit))
+		if cl := w.genCreate(r, ntypes[r.Rng.Intn(4)], c13Name(r, used), emit); !cl.failed {
+			clients = append(clients, cl)
+		}
 	}
 	// updates: further consensus states (+ the metadata the real update of that client type writes)
 	for _, cl := range clients {
@@ -1189,6 +1286,28 @@ func (w *c13World) genHistory(r *Rec, emit func(string), size int) {
 				emit(fmt.Sprintf("bscdelsigner %s %d %d", hxs(cl.chain), h.RevisionNumber, h.RevisionHeight))
 			}
 			r.Count("prune")
+		}
+	}
+	// ToggleClient (repaired: clears the replaced client's store, then creates the client of the other type)
+	for _, cl := range clients {
+		if r.Rng.Intn(5) != 0 {
+			continue
+		}
+		nt := ntypes[r.Rng.Intn(4)]
+		ncl := w.genCreateAt(r, nt, cl.chain, emit, c13Fix{nval: -1, verb: "toggle"})
+		if ncl.failed {
+			continue // same type, or rejected by Validate / Initialize: nothing changed
+		}
+		if ncl.ty != "tss" && r.Rng.Intn(2) == 0 {
+			h := clienttypes.NewHeight(c13Rev(r), 1+c13U64(r)%1000000)
+			cons := w.genConsFor(r, ncl, h)
+			emit(fmt.Sprintf("cons %s %d %d %s %s", hxs(ncl.chain), h.RevisionNumber, h.RevisionHeight, hx(w.consBlob(cons)), b01(cons.ValidateBasic() == nil)))
+			switch ncl.ty {
+			case "tm":
+				emit(fmt.Sprintf("tmmeta %s %d %d %d", hxs(ncl.chain), h.RevisionNumber, h.RevisionHeight, uint64(1700000000000000000+r.Rng.Int63n(1000000000000))))
+			case "bsc":
+				emit(fmt.Sprintf("bscsigner %s %d %d %s", hxs(ncl.chain), h.RevisionNumber, h.RevisionHeight, hx(c13Bytes(r, 20))))
+			}
 		}
 	}
 	// relayers
@@ -1276,7 +1395,7 @@ func c13AppExport(t *testing.T, r *Rec) {
 	var ops []string
 	w.genHistory(r, func(op string) {
 		ops = append(ops, op)
-		if out := w.apply(r, op); out != "ok" {
+		if out := w.apply(r, op); out != "ok" && !c13MayFail(op, out) {
 			t.Fatalf("app-export setup op %q -> %s", op, out)
 		}
 	}, 2)
@@ -1368,11 +1487,28 @@ func c13WriteCorpus(t *testing.T, r *Rec, dir string) {
 		{"eth-consensus-type", func(emit func(string)) {
 			w.genCreateAt(r, "eth", "ethchain", emit, c13Fix{set: true, rev: 0, h: 100, nval: -1})
 		}},
-		{"known-zero-height", func(emit func(string)) {
+		{"fixed-zero-height-rejected", func(emit func(string)) {
 			w.genCreateAt(r, "bsc", "bsc-genesis", emit, c13Fix{set: true, rev: 0, h: 0, nval: 2})
 		}},
-		{"known-bsc-no-validators", func(emit func(string)) {
+		{"fixed-bsc-no-validators-rejected", func(emit func(string)) {
 			w.genCreateAt(r, "bsc", "bsc-empty", emit, c13Fix{set: true, rev: 0, h: 200, nval: 0})
+		}},
+		{"toggle-to-tss", func(emit func(string)) {
+			// ToggleClient to a TSS client must not store a consensus state (TSS latest height is 0-0)
+			cl := w.genCreateAt(r, "tm", "tmchain", emit, c13Fix{set: true, rev: 0, h: 5, nval: -1})
+			upd(emit, cl, 0, 6)
+			w.genCreateAt(r, "tss", "tmchain", emit, c13Fix{nval: -1, verb: "toggle"})
+		}},
+		{"toggle-clears-store", func(emit func(string)) {
+			// the repaired ToggleClient clears the replaced client's consensus states and metadata; the result round-trips
+			a := w.genCreateAt(r, "tm", "chain-a", emit, c13Fix{set: true, rev: 1, h: 47, nval: -1})
+			upd(emit, a, 1, 303)
+			b := w.genCreateAt(r, "bsc", "chain-b", emit, c13Fix{set: true, rev: 0, h: 400, nval: 2})
+			upd(emit, b, 0, 401)
+			na := w.genCreateAt(r, "eth", "chain-a", emit, c13Fix{set: true, rev: 0, h: 9, nval: -1, verb: "toggle"})
+			upd(emit, na, 0, 10)
+			w.genCreateAt(r, "tm", "chain-b", emit, c13Fix{set: true, rev: 2, h: 0x2f2f, nval: -1, verb: "toggle"})
+			w.genCreateAt(r, "tm", "chain-b", emit, c13Fix{set: true, rev: 2, h: 0x2f30, nval: -1, verb: "toggle"}) // same type: rejected
 		}},
 		{"prefix-related-names", func(emit func(string)) {
 			// destination / source names where one is a proper prefix of the other and the next character sorts AFTER '/':
@@ -1423,7 +1559,7 @@ func c13WriteCorpus(t *testing.T, r *Rec, dir string) {
 		var ops []string
 		w.apply(r, "reset")
 		emit := func(op string) {
-			if out := w.apply(r, op); out != "ok" {
+			if out := w.apply(r, op); out != "ok" && !c13MayFail(op, out) {
 				t.Fatalf("corpus %s: %q -> %s", h.name, op, out)
 			}
 			ops = append(ops, op)
@@ -1476,7 +1612,7 @@ func TestC13(t *testing.T) {
 		emit := func(op string) {
 			out := w.apply(r, op)
 			r.Op(op, out)
-			if out != "ok" {
+			if out != "ok" && !c13MayFail(op, out) {
 				t.Fatalf("setup op %q -> %s", op, out)
 			}
 		}
@@ -1507,6 +1643,33 @@ func TestC13(t *testing.T) {
 			r.Count("case.mutated")
 		} else {
 			r.Count("case.reachable")
+		}
+		if r.Rng.Intn(3) == 0 {
+			// rvesting InitGenesis with From funding (a hand-written genesis; exports never carry From)
+			ds := []string{"atele", "btele", "ctele"}[:1+r.Rng.Intn(3)]
+			line := fmt.Sprintf("rvinit %d %d", b01i(r.Rng.Intn(6) != 0), len(ds))
+			bals := map[string]int64{}
+			for _, d := range ds {
+				bals[d] = []int64{0, 1, 5, 1000, 1 << 40}[r.Rng.Intn(5)]
+				line += fmt.Sprintf(" %s %d", hxs(d), bals[d])
+			}
+			var rw []string
+			for _, d := range ds {
+				if r.Rng.Intn(3) == 0 {
+					continue
+				}
+				amt := []int64{1, 5, 999, 1000, 1001, bals[d], bals[d] + 1}[r.Rng.Intn(7)]
+				if amt <= 0 {
+					amt = 1
+				}
+				rw = append(rw, fmt.Sprintf("%s %d", hxs(d), amt))
+			}
+			line += fmt.Sprintf(" %d", len(rw))
+			if len(rw) > 0 {
+				line += " " + strings.Join(rw, " ")
+			}
+			r.Op(line, w.apply(r, line))
+			r.Count("rvinit")
 		}
 		for _, op := range c13Tail {
 			if op == "keys" && mutated {
